@@ -2,7 +2,7 @@
 
 /// Helper function to decrypt table data
 pub(crate) fn decrypt_table_data(data: &mut [u8], key: u32) {
-    use crate::crypto::{decrypt_block, decrypt_dword};
+    use crate::crypto::decrypt_block;
 
     if data.is_empty() || key == 0 {
         return;
@@ -25,16 +25,7 @@ pub(crate) fn decrypt_table_data(data: &mut [u8], key: u32) {
         chunks[i * 4..(i + 1) * 4].copy_from_slice(&bytes);
     }
 
-    // Handle remaining bytes (same way as encryption)
-    if !remainder.is_empty() {
-        let mut last_dword = [0u8; 4];
-        last_dword[..remainder.len()].copy_from_slice(remainder);
-
-        let encrypted_u32 = u32::from_le_bytes(last_dword);
-        let decrypted_u32 =
-            decrypt_dword(encrypted_u32, key.wrapping_add((chunks.len() / 4) as u32));
-
-        let decrypted_bytes = decrypted_u32.to_le_bytes();
-        remainder.copy_from_slice(&decrypted_bytes[..remainder.len()]);
-    }
+    // The trailing len % 4 bytes are not encrypted (the MPQ cipher works on whole dwords and
+    // `ArchiveBuilder::encrypt_data` leaves them in the clear), so there is nothing to do for them.
+    let _ = remainder;
 }
